@@ -233,11 +233,18 @@ Fixpoint is_ (is_module : bool) (s : tstmt) {struct s} : list tstmt :=
   then expanded ++ [SEmit E_after_module_stmt n (Some (XLoadSaved n))]
   else expanded.
 
-Definition instr_module (body : list tstmt) : list tstmt :=
+Definition instr_module0 (body : list tstmt) : list tstmt :=
   (if sub c E_init_module then [SEmit E_init_module 0 None] else [])
   ++ flat_map (is_ true) body
   ++ (if sub c E_exit_module then [SEmit E_exit_module 0 None] else []).
 End Instr.
+
+(* a module docstring (a string constant standing as the first statement) stays as written and first: nothing is emitted for it or
+   around it, init_module comes after it (RwFrag.mod_doc / mod_rest are the same split on trees) *)
+Definition is_doc_t (s : tstmt) : bool := match s with SExpr _ (XConst _ (SStr _)) => true | _ => false end.
+Definition tdoc (body : list tstmt) : list tstmt := match body with d :: _ => if is_doc_t d then [d] else [] | [] => [] end.
+Definition trest (body : list tstmt) : list tstmt := match body with d :: rest => if is_doc_t d then rest else body | [] => [] end.
+Definition instr_module (c : rcfg) (body : list tstmt) : list tstmt := tdoc body ++ instr_module0 c (trest body).
 
 (* ---------------------------------------------------------------- values, results, logs *)
 Inductive val : Set := VInt (z : Z) | VBool (b : bool) | VNone | VStr (s : N) | VFun (n : N) | VBuiltin (k : N) | VRange (a b : Z).
@@ -513,10 +520,12 @@ Definition ref_l (is_module : bool) := fix ref_l (u : list tstmt) (r : env) {str
       end
   end.
 
-Definition ref_module (body : list tstmt) (r : env) : rres :=
+Definition ref_module0 (body : list tstmt) (r : env) : rres :=
   let a := ref_l true body r in
   {| r_exc := r_exc a; r_env := r_env a;
      r_log := (E_init_module, 0, Some VNone) :: r_log a ++ match r_exc a with None => [(E_exit_module, 0, Some VNone)] | Some _ => [] end |}.
+(* the module docstring evaluates to a constant that is dropped: it contributes no event and no effect *)
+Definition ref_module (body : list tstmt) (r : env) : rres := ref_module0 (trest body) r.
 End Sem.
 
 Definition filter_log (c : rcfg) (l : list entry) : list entry := filter (fun en => sub c (fst (fst en))) l.
